@@ -50,6 +50,9 @@ def instances(tier, seed):
                         label="holstein nmol=%d scheme=%d explicit non-symmetric coupling matrix" % (nmol, scheme), key="holstein/jmatrix"))
     for nph in (1, 2):
         out.append(dict(op="sbm", nph=nph, label="spin-boson nph=%d" % nph, key="sbm"))
+    out.append(dict(op="copy", label="BasisSet.copy keeps every local matrix (all basis classes, non-default parameters)", key="copy"))
+    for ncell in ((2, 3) if tier == "quick" else (2, 3, 4)):
+        out.append(dict(op="ti1d_mixed", ncell=ncell, label="TI1D with an electron + shifted-oscillator unit cell ncell=%d" % ncell, key="ti1d/mixed"))
     for ncell, rng in itertools.product((2, 3, 4), (1, 2, 3)):
         out.append(dict(op="ti1d", ncell=ncell, rng=rng, label="TI1D ncell=%d range=%d" % (ncell, rng), key="ti1d"))
     return out
@@ -152,6 +155,10 @@ def make_harness(P):
             return h_sbm(ctx, P)
         if op == "ti1d":
             return h_ti1d(ctx, P)
+        if op == "copy":
+            return h_copy(ctx, P)
+        if op == "ti1d_mixed":
+            return h_ti1d_mixed(ctx, P)
         raise ValueError(op)
     return h
 
@@ -543,6 +550,77 @@ def h_ti1d(ctx, P):
     ctx.check("TI1D terms = sum_i h_i + h_{i,(i+d) mod n} (wrap-around included)", ctx.eq(H, ref))
     names = [b.dofs[0] for b in model.basis]
     ctx.check("TI1D basis is the unit cell repeated ncell times with cell-tagged DoF names", names == [("cell%d" % i, "s") for i in range(ncell)])
+
+
+def h_copy(ctx, P):
+    """BasisSet.copy(new_dof) is what TI1DModel and add_auxiliary_space build their repeated / auxiliary sites from: the copy must denote the same local matrices"""
+    from renormalizer.model import basis as ba
+    w = ctx.real("omega", 1.7)
+    ctx.assume(ctx.lt(0, w), "omega > 0")
+    x0 = ctx.real("x0", 0.6)
+    cases = [
+        (ba.BasisSHO("v", w, 3, x0=x0), ["x", "p", "x^2", "p^2", r"b^\dagger b", r"b^\dagger", "b", "I", "x p"]),
+        (ba.BasisSHO("v", 1.7, 3, x0=0.6, general_xp_power=True), ["x", "x^2", "p^2"]),      # (the general-power path needs concrete parameters)
+        (ba.BasisHalfSpin("s", sigmaqn=[1, -1]), ["X", "Y", "Z", "sigma_+", "sigma_-", "I"]),
+        (ba.BasisSimpleElectron("e"), [r"a^\dagger", "a", r"a^\dagger a", "I"]),
+        (ba.BasisMultiElectron(["a", "b"], [0, 1]), None),
+        (ba.BasisMultiElectronVac(["a", "b"]), None),
+        (ba.BasisHopsBoson("h", 3), [r"b^\dagger b", r"\tilde{b}^\dagger", r"\tilde{b}", "I"]),
+    ]
+    from renormalizer.model import Op
+    for b, syms in cases:
+        new = ("c", "x") if not b.multi_dof else [("c", d) for d in b.dofs]
+        c = b.copy(new)
+        conds = [c.nbas == b.nbas, type(c) is type(b), list(c.dofs) == (list(new) if b.multi_dof else [new])]
+        if syms is None:
+            for d1, n1 in zip(b.dofs, c.dofs):
+                for d2, n2 in zip(b.dofs, c.dofs):
+                    conds.append(ctx.eq(np.asarray(b.op_mat(Op(r"a^\dagger a", [d1, d2]))), np.asarray(c.op_mat(Op(r"a^\dagger a", [n1, n2])))))
+        else:
+            for sy in syms:
+                conds.append(ctx.eq(np.asarray(b.op_mat(sy)), np.asarray(c.op_mat(sy))))
+        ctx.check("%s.copy: same size, same class, renamed DoF, identical local matrices" % type(b).__name__, ctx.all(conds))
+
+
+def h_ti1d_mixed(ctx, P):
+    from renormalizer.model import TI1DModel, Op, basis as ba
+    ncell = P["ncell"]
+    w = 1.3
+    x0 = ctx.real("x0", 0.6)
+    h0, g, k = ctx.real("h", 0.7), ctx.real("g", -0.45), ctx.real("k", 0.3)
+    ctx.assume(ctx.all([ctx.nonzero(h0), ctx.nonzero(g), ctx.nonzero(k)]), "h, g, k != 0")
+    cell = [ba.BasisSimpleElectron("e"), ba.BasisSHO("v", w, 2, x0=x0)]
+    local = [Op(r"a^\dagger a", "e", h0), Op(r"a^\dagger a x", ["e", "e", "v"], k)]
+    nonlocal_ = [Op(r"a^\dagger a", [(0, "e"), (1, "e")], g), Op(r"a^\dagger a", [(1, "e"), (0, "e")], g)]
+    model = TI1DModel(cell, local, nonlocal_, ncell)
+    H = dense_of_terms(ctx, model, model.ham_terms)
+    dims = [2, 2] * ncell
+    D = int(np.prod(dims))
+
+    def embed(mat, si):
+        kk = np.ones((1, 1))
+        for s_, d in enumerate(dims):
+            kk = np.kron(kk, mat if s_ == si else np.eye(d))
+        return kk
+    ne = np.diag([0.0, 1.0])
+    ad = np.array([[0.0, 0.0], [1.0, 0.0]])
+    # x of a two-level oscillator with origin x0: sqrt(1/(2 w)) (b + b^+) + x0
+    xm = np.array([[0.0, 1.0], [1.0, 0.0]], dtype=object if ctx.symbolic else float) * float(np.sqrt(0.5 / w)) + np.eye(2) * x0
+    ref = zeros_exact(ctx, (D, D))
+    for i in range(ncell):
+        ref = ref + embed(ne, 2 * i) * h0
+        ref = ref + embed(ne, 2 * i).dot(np.asarray(_embed_obj(xm, 2 * i + 1, dims))) * k
+        j = (i + 1) % ncell
+        if ncell > 1:
+            ref = ref + (embed(ad, 2 * i).dot(embed(ad.T, 2 * j)) + embed(ad, 2 * j).dot(embed(ad.T, 2 * i))) * g
+    ctx.check("TI1D (electron + shifted oscillator cell): terms = sum_i h_i + h_{i,i+1 mod n} with EVERY cell carrying the unit cell's origin", ctx.eq(H, ref))
+
+
+def _embed_obj(mat, si, dims):
+    kk = np.ones((1, 1), dtype=mat.dtype)
+    for s_, d in enumerate(dims):
+        kk = np.kron(kk, mat if s_ == si else np.eye(d, dtype=int))
+    return kk
 
 
 def main(tier, seed):
